@@ -47,7 +47,7 @@
 enum vp_kkind { VP_K_NONE = 0, VP_K_USER, VP_K_EPOLL, VP_K_PIPE_R, VP_K_PIPE_W, VP_K_EVENTFD, VP_K_SIGNALFD, VP_K_TIMERFD };
 enum vp_kwait { VP_W_EPOLL = 1, VP_W_POLL, VP_W_SELECT };
 
-struct vp_kfile { int open; int kind; int inst; unsigned ready; unsigned gen; };
+struct vp_kfile { int open; int kind; int inst; unsigned ready; unsigned gen; int shared; /* open file description also held by the parent process (see vp_k_fork) */ };
 struct vp_kreg { int present; unsigned events; int data_fd; };
 struct vp_kepoll { int used; int fd; struct vp_kreg reg[VP_NFD]; int ctl_calls; };
 
@@ -65,6 +65,9 @@ int vp_k_wait_calls;
 int vp_k_wait_fail;           /* harness: next wait fails with this errno */
 int vp_k_quiet;               /* harness: waits time out with nothing ready (concrete 0), for harnesses whose subject ends at the wait */
 int vp_k_last_ctl_epfd = -1;
+int vp_k_forked, vp_k_shared_closed;
+struct vp_kreg vp_k_parent_snap[VP_NEP][VP_NFD];   /* interest lists at fork time */
+int vp_k_parent_ctl[VP_NEP];
 
 /* snapshot of what the last wait call was handed */
 int vp_k_snap_kind;
@@ -85,7 +88,7 @@ static int vp_k_alloc_fd(int kind)
 	if (vp_k_open_fail) { errno = vp_k_open_fail; return -1; }
 	for (fd = 0; fd < VP_NFD; fd++) {
 		if (!vp_kf[fd].open) {
-			vp_kf[fd].open = 1; vp_kf[fd].kind = kind; vp_kf[fd].inst = -1; vp_kf[fd].ready = 0; vp_kf[fd].gen++;
+			vp_kf[fd].open = 1; vp_kf[fd].kind = kind; vp_kf[fd].inst = -1; vp_kf[fd].ready = 0; vp_kf[fd].gen++; vp_kf[fd].shared = 0;
 			return fd;
 		}
 	}
@@ -95,13 +98,20 @@ static int vp_k_alloc_fd(int kind)
 /* open a user file at a chosen number (the application's pipes/sockets) */
 static void vp_k_open_at(int fd)
 {
-	vp_kf[fd].open = 1; vp_kf[fd].kind = VP_K_USER; vp_kf[fd].inst = -1; vp_kf[fd].ready = 0; vp_kf[fd].gen++;
+	vp_kf[fd].open = 1; vp_kf[fd].kind = VP_K_USER; vp_kf[fd].inst = -1; vp_kf[fd].ready = 0; vp_kf[fd].gen++; vp_kf[fd].shared = 0;
 }
 static int vp_k_do_close(int fd)
 {
 	int i;
 	vp_k_close_calls++;
 	if (fd < 0 || fd >= VP_NFD || !vp_kf[fd].open) { vp_k_close_ebadf++; errno = EBADF; return -1; }
+	if (vp_kf[fd].shared) {
+		/* after fork: the parent still holds this open file description, so closing the child's descriptor
+		 * neither destroys an epoll instance nor removes the file from any interest list (epoll(7), Q6) */
+		vp_kf[fd].open = 0; vp_kf[fd].kind = VP_K_NONE; vp_kf[fd].ready = 0; vp_kf[fd].shared = 0;
+		vp_k_shared_closed++;
+		return 0;
+	}
 	if (vp_kf[fd].kind == VP_K_EPOLL) {
 		int k = vp_kf[fd].inst, j;
 		for (j = 0; j < VP_NFD; j++) { vp_kep[k].reg[j].present = 0; vp_kep[k].reg[j].events = 0; }
@@ -112,6 +122,19 @@ static int vp_k_do_close(int fd)
 	return 0;
 }
 int close(int fd) { return vp_k_do_close(fd); }
+/* fork() as seen by the child: same descriptor table, every open file description now also belongs to the
+ * parent; the epoll instances that exist are the parent's (shared) and are snapshotted so that the harness can
+ * assert the child leaves them alone */
+static void vp_k_fork(void)
+{
+	int fd, k;
+	vp_k_forked = 1;
+	for (fd = 0; fd < VP_NFD; fd++) if (vp_kf[fd].open) vp_kf[fd].shared = 1;
+	for (k = 0; k < VP_NEP; k++) {
+		vp_k_parent_ctl[k] = vp_kep[k].ctl_calls;
+		for (fd = 0; fd < VP_NFD; fd++) vp_k_parent_snap[k][fd] = vp_kep[k].reg[fd];
+	}
+}
 
 /* ---- epoll ---------------------------------------------------------------- */
 static int vp_k_epoll_new(void)
